@@ -11,7 +11,10 @@ def run(ctx):
         ctx.stage("c08" + suffix, "sdk/go/arvados", "arvados", CFS + ["C08/zz_verif_c08_test.go"], "TestVerifC08$",
                   n * mult, HDR.format(imports="lib.Path model.CFS_file model.CFS_tree model.CFS_inst model.C08_run"),
                   seed_offset=off, shard=60, env={"VERIF_STAGE": "c08" + suffix, "VERIF_OPS": str(ops)})
-    return standard(ctx, "C08", ["model/C08_run.vo"], stages,
+    hdr = HDR.format(imports="lib.Path model.CFS_file model.CFS_tree model.CFS_inst model.C08_run")
+    # first operation whose observation the plain filesystem does not predict: (index, expected, observed)
+    expr = "first_diff 0 (run Spec (fs_init Spec) (c_ops c)) (c_obs c)"
+    return standard(ctx, "C08", ["model/C08_run.vo"], stages, explain={"c08": (hdr, expr)},
                     rule="random operation histories (open with every flag combination, write, append, seek, read, truncate, "
                          "mkdir, rename, remove, stat, readdir; several handles; block limits 1,2,3,5,8,64; random explicit "
                          "flushes and saves in between) from the empty collection; distinct by hash of the case term; "
